@@ -493,7 +493,6 @@ func replayKnown(t *testing.T, p *WorldProp) {
 	}
 }
 
-
 // replayKnownGeneric is replayKnown for properties that are not plain world-machine tests: judge
 // re-runs the saved input and returns the violation it finds (or nil).
 // knownMatch: property -> finding name -> its match string (for findings that still reproduce).
